@@ -585,6 +585,139 @@ fn run_h2_scenario(rt: &Arc<tokio::runtime::Runtime>, id: &str, mode: HandlerTas
     )
 }
 
+/// HTTPS (HTTP/1.1 over TLS): `k` clients, the first `leavers` of them give up
+/// their connection (`how`; `notify` = a TLS close_notify first) while their handler
+/// waits, the others stay and are answered.  Same line format as the plain scenarios.
+fn run_tls_scenario(
+    rt: &Arc<tokio::runtime::Runtime>,
+    id: &str,
+    mode: HandlerTaskMode,
+    kit: &TlsKit,
+    k: usize,
+    leavers: usize,
+    how: How,
+    notify: bool,
+) -> String {
+    let ctx = Ctx::new();
+    let server = start_opts(rt, &ctx, mode, Some(kit.server.clone()));
+    let addr = server.local_addr();
+    let cancel = mode == HandlerTaskMode::CancelOnDisconnect;
+    let mut reqs: Vec<(u32, u32, String)> = Vec::new();
+    let mut resp: Vec<(u32, u16)> = Vec::new();
+    let mut late = 0usize;
+    let mut expired = false;
+    let mut conns: Vec<Option<TlsStream>> = Vec::new();
+    for i in 0..k {
+        let c = 1 + i as u32;
+        let r = 2 * c;
+        reqs.push((r, c, if i < leavers { "wait".into() } else { "stay".into() }));
+        match tls_connect(addr, kit) {
+            Some(mut s) => {
+                let _ = s.sock.set_read_timeout(Some(DEADLINE));
+                ctx.log(Ev::ReqSent(c, r));
+                if s.write_all(&get(&format!("/w/{}", r))).is_err() || s.flush().is_err() {
+                    late += 1;
+                }
+                conns.push(Some(s));
+            }
+            None => {
+                late += 1;
+                conns.push(None);
+            }
+        }
+    }
+    for (r, _, _) in reqs.clone() {
+        if !ctx.wait_for(&Ev::Start(r), DEADLINE) {
+            late += 1;
+        }
+    }
+    let mut kept: Vec<std::net::TcpStream> = Vec::new();
+    for i in 0..leavers.min(k) {
+        let c = 1 + i as u32;
+        ctx.log(Ev::Disconnect(c));
+        if let Some(mut s) = conns[i].take() {
+            if notify {
+                s.conn.send_close_notify();
+                let _ = s.flush();
+            }
+            let rustls::StreamOwned { conn: _, sock } = s;
+            if let Some(kp) = disconnect(rt, sock, how) {
+                kept.push(kp);
+            }
+        }
+    }
+    if cancel {
+        for (r, _, kind) in reqs.clone() {
+            if kind == "wait" && !ctx.wait_for(&Ev::Drop(r), DEADLINE) {
+                expired = true;
+            }
+        }
+    }
+    for (r, _, kind) in reqs.clone() {
+        if kind == "stay" {
+            ctx.release(r);
+        }
+    }
+    for i in leavers.min(k)..k {
+        let r = 2 * (1 + i as u32);
+        if let Some(mut s) = conns[i].take() {
+            // one small response: head, then the two body bytes
+            let mut got = Vec::new();
+            let mut buf = [0u8; 4096];
+            loop {
+                if let Some(p) = got.windows(4).position(|w| w == b"\r\n\r\n") {
+                    if got.len() >= p + 4 + 2 {
+                        break;
+                    }
+                }
+                match std::io::Read::read(&mut s, &mut buf) {
+                    Ok(0) | Err(_) => break,
+                    Ok(n) => got.extend_from_slice(&buf[..n]),
+                }
+            }
+            if got.starts_with(b"HTTP/1.1 200") && got.ends_with(b"ok") {
+                resp.push((r, 200));
+                ctx.log(Ev::RespDelivered(r));
+            } else {
+                resp.push((r, 0));
+            }
+        }
+    }
+    let healthy = tls_health(addr, kit);
+    drop(kept);
+    let closed = if cancel && !expired {
+        close_then_release(rt, server, &ctx, DEADLINE, Duration::from_secs(60))
+    } else {
+        ctx.release_all();
+        close_with_deadline(rt, server, Duration::from_secs(60))
+    };
+    ctx.release_all();
+    let log = ctx.snapshot();
+    reqs.sort();
+    resp.sort();
+    let reqs_s = reqs.iter().map(|(r, c, k)| format!("{}:{}:{}", r, c, k)).collect::<Vec<_>>().join(";");
+    let resp_s = if resp.is_empty() {
+        "-".to_string()
+    } else {
+        resp.iter().map(|(r, st)| format!("{}:{}", r, st)).collect::<Vec<_>>().join(";")
+    };
+    format!(
+        "lc {} {} n=1 plans=tls-{}{}-k{}-l{} reqs={} {} => health={} closed={} late={} resp={}",
+        id,
+        mode_name(mode),
+        how.name(),
+        if notify { "-notify" } else { "" },
+        k,
+        leavers.min(k),
+        reqs_s,
+        enc_log(&log),
+        healthy as u8,
+        matches!(closed, Some(Ok(()))) as u8,
+        late,
+        resp_s
+    )
+}
+
 fn random_plan(rng: &mut Rng, writers: &mut usize) -> Plan {
     let how = *rng.pick(&How::ALL);
     loop {
@@ -672,6 +805,7 @@ fn main() {
     enum Job {
         H1(String, HandlerTaskMode, Vec<Plan>),
         H2(String, HandlerTaskMode, H2Variant, usize),
+        Tls(String, HandlerTaskMode, usize, usize, How, bool),
     }
     let mut jobs: Vec<Job> = Vec::new();
     let mut hk = 0;
@@ -699,6 +833,22 @@ fn main() {
         hk += 1;
         jobs.push(Job::H2(format!("h{}", hk), modes[i % 2], v, kk));
     }
+    // 5. HTTPS: clients leave / stay while their handlers wait
+    let kit = Arc::new(tls_kit());
+    let mut tk = 0;
+    for &m in &modes {
+        for how in How::ALL {
+            for (kk, ll, notify) in [(1usize, 1usize, false), (4, 2, false), (3, 3, true), (2, 0, false)] {
+                tk += 1;
+                jobs.push(Job::Tls(format!("t{}", tk), m, kk, ll, how, notify));
+            }
+        }
+    }
+    for i in 0..(if is_thorough() { 120 } else { 12 }) {
+        let kk = rng.range(1, 10) as usize;
+        tk += 1;
+        jobs.push(Job::Tls(format!("t{}", tk), modes[i % 2], kk, rng.below(kk as u64 + 1) as usize, *rng.pick(&How::ALL), rng.chance(1, 3)));
+    }
     for (id, m, p) in scenarios {
         jobs.push(Job::H1(id, m, p));
     }
@@ -710,6 +860,7 @@ fn main() {
     let mut ws = Vec::new();
     for _ in 0..workers {
         let (scenarios, next, results, rt) = (scenarios.clone(), next.clone(), results.clone(), rt.clone());
+        let kit = kit.clone();
         ws.push(std::thread::spawn(move || loop {
             let i = next.fetch_add(1, Ordering::SeqCst);
             if i >= scenarios.len() {
@@ -718,6 +869,7 @@ fn main() {
             let line = match &scenarios[i] {
                 Job::H1(id, m, plans) => run_scenario(&rt, id, *m, plans),
                 Job::H2(id, m, v, kk) => run_h2_scenario(&rt, id, *m, *v, *kk),
+                Job::Tls(id, m, kk, ll, how, notify) => run_tls_scenario(&rt, id, *m, &kit, *kk, *ll, *how, *notify),
             };
             results.lock().unwrap()[i] = Some(line);
         }));
